@@ -26,7 +26,7 @@ import (
 var c19fNames = []string{"main.journal", "b.journal", "c.journal"}
 
 type C19FOp struct {
-	Op      string         `json:"op"` // open | change | close | config
+	Op      string         `json:"op"` // open | change | close | save | config
 	Doc     int            `json:"doc"`
 	Version int            `json:"version,omitempty"`
 	Pad     int            `json:"pad,omitempty"` // comment lines that make the text longer
@@ -224,6 +224,14 @@ func c19fCheck(c *C19FCase) (ds []ev.Discrepancy, classes []string) {
 			}
 			st.open[d] = false
 			_ = h.Close(uris[d])
+		case "save":
+			if !st.open[d] {
+				continue
+			}
+			st.disk[d] = st.text[d]
+			_ = os.WriteFile(filepath.Join(dir, c19fNames[d]), []byte(st.disk[d]), 0o644)
+			_ = h.Save(uris[d])
+			cls["save"] = true
 		case "config":
 			cum = c19fMerge(cum, op.Config)
 			h.C.SetConfig(cum)
@@ -356,6 +364,8 @@ func genC19F(t *rapid.T) *C19FCase {
 		case rapid.IntRange(0, 4).Draw(t, "close") == 0:
 			op.Op = "close"
 			open[d] = false
+		case rapid.IntRange(0, 4).Draw(t, "save") == 0:
+			op.Op = "save"
 		default:
 			op.Op, op.Version = "change", s+1
 		}
